@@ -13,6 +13,7 @@ from pyopenapi_gen.http_types import HTTPMethod
 
 from ..core.utils import NameSanitizer
 from ..types.services.type_service import UnifiedTypeService
+from .url_utils import extract_url_variables
 
 logger = logging.getLogger(__name__)
 
@@ -35,6 +36,34 @@ def get_params(op: IROperation, context: RenderContext, schemas: dict[str, IRSch
             }
         )
     return params
+
+
+def get_unique_param_names(op: IROperation) -> List[str]:
+    """
+    Returns the Python argument name of every entry of ``op.parameters`` (same order).
+
+    Distinct parameters whose names derive to the same identifier (``user-id`` / ``user_id``, or the same name in
+    two locations) get distinct names: the first keeps the derived name, later ones receive ``_2``, ``_3``, ...
+    Path parameters are served first because the URL template refers to them by their derived name. Every returned
+    name is a fixed point of ``NameSanitizer.sanitize_method_name``.
+    """
+    # Path template variables without a parameter declaration are added to the signature under their derived name
+    declared_path_names = {NameSanitizer.sanitize_method_name(p.name) for p in op.parameters if p.param_in == "path"}
+    taken: set[str] = {
+        NameSanitizer.sanitize_method_name(var) for var in extract_url_variables(op.path)
+    } - declared_path_names
+    names: List[str] = [""] * len(op.parameters)
+    order = sorted(range(len(op.parameters)), key=lambda i: op.parameters[i].param_in != "path")
+    for i in order:
+        base = NameSanitizer.sanitize_method_name(op.parameters[i].name)
+        candidate = base
+        suffix = 1
+        while candidate in taken:
+            suffix += 1
+            candidate = f"{base.rstrip('_')}_{suffix}"
+        taken.add(candidate)
+        names[i] = candidate
+    return names
 
 
 def get_param_type(param: IRParameter, context: RenderContext, schemas: dict[str, IRSchema]) -> str:
